@@ -15,12 +15,6 @@ impl PM1Base {
     }
 }
 
-pub open spec fn prod32(s: Seq<u32>) -> nat
-    decreases s.len()
-{
-    if s.len() == 0 { 1 } else { prod32(s.drop_last()) * (s.last() as nat) }
-}
-
 /// for every prime q < 500 the largest power of q below 1024 divides the stage-1 exponent
 pub open spec fn pm1_small_ok(total: nat) -> bool {
     forall|q: nat| #[trigger] is_prime_dv(q) && q < 500 ==> dvd(crate::ecm::tp(q, 1024, q), total)
@@ -88,12 +82,6 @@ verus! {
 /// the primes of the table processed so far that are below 500 have their top power below 1024 in the exponent
 pub open spec fn pm1_idx_ok(primes: Seq<u32>, total: nat, upto: int) -> bool {
     forall|j: int| 0 <= j < upto && (primes[j] as nat) < 500 ==> dvd(#[trigger] crate::ecm::tp(primes[j] as nat, 1024, primes[j] as nat), total)
-}
-
-pub proof fn lemma_prod32_push(f: Seq<u32>, b: u32)
-    ensures prod32(f.push(b)) == prod32(f) * (b as nat)
-{
-    assert(f.push(b).drop_last() =~= f);
 }
 
 pub proof fn lemma_pm1_idx_ok_step(primes: Seq<u32>, total: nat, i: int, tpow: nat)
